@@ -50,6 +50,8 @@ func genCase(t *rapid.T) Case {
 	}
 	if d == "mysql" {
 		c.Flavour = rapid.SampledFrom([]string{"", "", "mysql8", "mysql57", "maria", "tidb"}).Draw(t, "flavour")
+	} else {
+		c.Flavour = rapid.SampledFrom([]string{"", "", "pg15", "pg10", "crdb"}).Draw(t, "pgflavour")
 	}
 	if rapid.IntRange(0, 5).Draw(t, "span") == 0 {
 		spans := []string{"add-schema", "drop-schema", "modify-schema", "modify-other-schema", "two-schemas", "two-schemas-differing-by-case", "modify-other-schema-differing-by-case"}
@@ -111,6 +113,12 @@ func TestCheck(t *testing.T) {
 					}
 					if !ev.Each(col, "enumerated", Case{Dialect: d, Base: base, Scenario: "modify", Edits: []c02.EditRef{s.E}, Qualifier: q, Mode: mode}, check, known) {
 						return
+					}
+					// every third edit also through the planner of a driver opened against CockroachDB / PostgreSQL 15
+					if d == "postgres" && i%3 == 0 {
+						if !ev.Each(col, "enumerated", Case{Dialect: d, Base: base, Scenario: "modify", Edits: []c02.EditRef{s.E}, Qualifier: q, Mode: mode, Flavour: []string{"crdb", "pg15"}[i/3%2]}, check, known) {
+							return
+						}
 					}
 				}
 				spans := []string{"add-schema", "drop-schema", "modify-schema", "modify-other-schema", "two-schemas", "two-schemas-differing-by-case", "modify-other-schema-differing-by-case"}
